@@ -384,9 +384,7 @@ theorem items_anti (σ : Static) (q0 qe : WQ) (items : List IResult) :
           have ok := workOk_of σ e qe none w hw2
           apply closed_intro σ e w c ok
           intro g hg p hp
-          rcases workOk_parent σ e qe none w hw2 g hg p hp with h1 | h1
-          · exact Or.inl h1
-          · exact Or.inr (hq p h1)
+          exact workOk_parent σ e qe none w hw2 g hg p hp
       have hq' : ∀ p, hasNode qe p → p ∈ (e.intro it.work).introG := by
         intro p hp
         cases it.work with
@@ -417,9 +415,7 @@ theorem handle_anti (σ : Static) (e : EnvSt) (q : WQ) (ev : GraphEvent) (e' : E
           rw [hwk] at hw2
           apply closed_intro σ e w c (workOk_of σ e q (some t) w hw2)
           intro x hx p hp
-          rcases workOk_parent σ e q (some t) w hw2 x hx p hp with h1 | h1
-          · exact Or.inl h1
-          · exact Or.inr (g.known.nodes p h1)
+          exact workOk_parent σ e q (some t) w hw2 x hx p hp
       exact ⟨c', taskSuccess_anti σ e q t r D g c c' hw hD a⟩
     · cases hok
   | taskFailure t =>
